@@ -252,4 +252,6 @@ def body(check):
     from . import c15
     if check.guarded("LAYOUT-AGREE", "modeldisc.fvm2dcart", lambda: c15.layout_agree(check)):
         check.guarded("KAPPA-2D", "xnum.extrapol2dk", lambda: c15.kappa_2d(check))
+        # "along each 2D direction" includes the periodic seam of that direction, whatever the other pair of boundaries is
+        check.guarded("SEAM-2D", "modeldisc.fvm2dcart.calc_bc_grad", lambda: c15.seam_2d(check))
         check.guarded("ROW-1D-AGREE", "xnum.extrapol2d*", lambda: c15.row_1d_agree(check))
